@@ -40,6 +40,9 @@ PROPS['C20'] = dict(level='proof', functions=['sempler.noise.normal', 'sempler.n
                     design='DESIGN.md §4 C20', technique=TECH,
                     note=NOTE + ' A-RNG: the laws of np.random.normal/uniform/laplace (mean, variance, support) are assumed; the contracts pin the data flow into them.',
                     claim='each factory is proved to return a callable whose value on n is exactly the n draws of numpy\'s global generator with the documented parameters (standard deviation sqrt(var) for normal; [lo,hi) for uniform; (mean, scale) for laplace; zeros for zero()), and null() == 0.')
+PROPS['C12'] = dict(level='proof', functions=[G + 'intervention_targets'], bounded=[], design='DESIGN.md §4 C12', technique=TECH,
+                    note=NOTE + ' A-RNG: integers(lo,hi,K) in [lo,hi); choice(a,s,replace=False) returns s entries at distinct positions and raises ValueError iff s > len(a). L-CARD instances for set difference / interval / distinct lists. That every size and variable occurs over seeds is numpy\'s law (assumed).',
+                    claim='intervention_targets is proved (all p>=1, K>=0, sizes/ranges, both replace modes, all seeds) to return exactly K lists of distinct variables of 0..p-1 with length equal to the size or inside the inclusive range, pairwise disjoint without replacement, and to raise ValueError exactly when the tuple has length != 2, max size > p, or max size x K > p without replacement - in particular the inner choice() can never fail (loop invariant card(remaining) >= max x (K-i)).')
 NOT_YET = {}
 
 GLOBAL_ASSUMPTIONS = [
